@@ -1,6 +1,7 @@
 """rowio._excel_cell_value, rowio.excel_rows, XlsxRowWriter.write_row, Reader._raw_rows (C16; error paths C06/C10)."""
 import io, itertools, os, z3
 from .common import *
+from vf import findings
 from vf.unit import ProofUnit, NativeUnit, Oracle, sweep
 from vf.model import *
 
@@ -220,6 +221,24 @@ def unit_excel_workbooks():
                 return None if got == want else {"expected": want, "observed": got}
             res.append(sweep("C16/workbooks/the Sheet property selects the sheet the validating reader reads", sheet_cases(), sheet_check, "audit", "12-sheet workbook x Sheet property {unset, 1, 2, 3, 9, 10, 11, 12} through validio.rows",
                              describe=lambda k: {"sheet_property": k}, function="validio.Reader._raw_rows + rowio.excel_rows", unit="C16.workbooks", props=["C16"]))
+            # date cells xlrd calls ambiguous (recorded finding K-12): January / February 1900 and times that round up to midnight
+            known12 = findings.is_known("K-12", "C16"); k12 = []
+            def amb_cases():
+                yield ("d", datetime.datetime(1900, 2, 15, 0, 0, 0)); yield ("d", datetime.datetime(1900, 1, 1, 12, 0, 0)); yield ("t", datetime.time(23, 59, 59, 700000))
+            def amb_check(cell):
+                n[0] += 1; path = os.path.join(tmp, "a%d.xlsx" % n[0]); build(path, [[[("s", "before"), cell]]])
+                try: got = list(rowio.excel_rows(path))
+                except errors.DataFormatError as e:
+                    if known12: k12.append((cell, str(e)[-60:])); return None
+                    return {"expected": "a row ['before', <date or time text>]", "observed": "DataFormatError: %s" % e}
+                import re
+                ok = len(got) == 1 and got[0][0] == "before" and re.fullmatch(r"\d{4}-\d\d-\d\d \d\d:\d\d:\d\d|\d\d:\d\d:\d\d", got[0][1])
+                return None if ok else {"expected": "['before', 'YYYY-MM-DD hh:mm:ss' or 'hh:mm:ss']", "observed": got}
+            res.append(sweep("C16/workbooks/date cells of January and February 1900, times rounding up to midnight", amb_cases(), amb_check, "audit", "3 cells xlrd calls ambiguous" + (" (recorded finding K-12)" if known12 else ""),
+                             describe=lambda c: {"cell": repr(c)}, function="rowio._excel_cell_value", unit="C16.workbooks", props=["C16"]))
+            if k12:
+                res.append(Result("C16/K-12 witness: a date cell xlrd calls ambiguous makes the whole workbook unreadable", "audit", FAILED, "native", finding="K-12", cases=len(k12), props=["C16"], detail=repr(k12[0])[:300],
+                                  replay={"verdict": "confirmed", "input": repr(k12[0][0]), "expected": "'1900-02-15 00:00:00' (a documented date text)", "observed": "DataFormatError ... " + k12[0][1]}))
             # xlsx row writer round trip
             def rt_cases():
                 alpha = ["", "a", "b c", "=x", "ä", "1", "0.5", "x\ny", "<&>"]
